@@ -2202,7 +2202,12 @@ def lex_tokens(line):
     if match is not None:
         value = match.group(1)
         # process backslash escapes without mangling non-ASCII characters
-        value = value.encode('latin-1', 'backslashreplace').decode('unicode_escape')
+        try:
+            value = value.encode('latin-1', 'backslashreplace').decode('unicode_escape')
+            # (a lone surrogate such as \ud800 is no character at all)
+            value.encode('utf-8')
+        except UnicodeError:
+            raise AssemblerError('invalid escape sequence in string', line)
         tokens = ['string', value]
         return LineTokens(line, tokens)
 
